@@ -80,6 +80,30 @@ def full_lc_voice(rng, source_address, group=True, other=None):
     return FullLinkControl(flco=FLCOs.UnitToUnitVoiceChannelUser, target_address=other, **kw)
 
 
+def full_lc_other(rng, sub):
+    """the full link controls that are not voice channel users: sub = "gps" (GPS Info, coordinates on the 25 / 24 bit grid,
+    both signs and the extremes) or "ta" (talker alias header / blocks 1..3)"""
+    from okdmr.dmrlib.etsi.layer2.elements.feature_set_ids import FeatureSetIDs
+    from okdmr.dmrlib.etsi.layer2.elements.flcos import FLCOs
+    from okdmr.dmrlib.etsi.layer2.pdu.full_link_control import FullLinkControl
+    from okdmr.dmrlib.etsi.layer3.elements.position_error import PositionError
+    from okdmr.dmrlib.etsi.layer3.elements.talker_alias_data_format import TalkerAliasDataFormat
+    kw = dict(protect_flag=rng.getrandbits(1), fid=FeatureSetIDs.StandardizedFID, crc=rbits(rng, 24))
+    if sub == "gps":
+        def grid(w):
+            k = rng.choice([rng.randrange(-(1 << (w - 1)), 1 << (w - 1)), -rng.randrange(1, 1 << (w - 1)), -1, -(1 << (w - 1)),
+                            (1 << (w - 1)) - 1, 0, rng.randrange(1, 1 << (w - 1))])
+            return k
+        return FullLinkControl(flco=FLCOs.GPSInfo, position_error=rng.choice(list(PositionError)),
+                               longitude=grid(25) * (360 / 2 ** 25), latitude=grid(24) * (180 / 2 ** 24), **kw)
+    if rng.random() < 0.4:
+        return FullLinkControl(flco=FLCOs.TalkerAliasHeader, talker_alias_data_format=rng.choice(list(TalkerAliasDataFormat)),
+                               talker_alias_data_length=rng.randrange(32), talker_alias_data_msb=rng.getrandbits(1),
+                               talker_alias_data=rbytes(rng, 6), **kw)
+    return FullLinkControl(flco=rng.choice([FLCOs.TalkerAliasBlock1, FLCOs.TalkerAliasBlock2, FLCOs.TalkerAliasBlock3]),
+                           talker_alias_data=rbytes(rng, 7), **kw)
+
+
 HDR_FORMATS = ["C", "U", "R", "S", "T"]
 
 
